@@ -124,7 +124,9 @@ func runC17(c *Check) {
 	}
 	// ---- lazy loop
 	{
-		g := BuildECFG(p, lazy, ExpandOpts{MaxDepth: 2, Stop: func(fn *ssa.Function) bool { return strings.HasSuffix(fn.String(), "publishBlockInternal") || strings.Contains(fn.String(), "publishBlockInternal$bound") }})
+		g := BuildECFG(p, lazy, ExpandOpts{MaxDepth: 2, Stop: func(fn *ssa.Function) bool {
+			return strings.HasSuffix(fn.String(), "publishBlockInternal") || strings.Contains(fn.String(), "publishBlockInternal$bound")
+		}})
 		c.NoteGraph(g)
 		fn := fnName(lazy)
 		sel := g.Select(func(n *Node) bool { s, ok := n.In.(*ssa.Select); return ok && s.Blocking && n.Ctx.Depth == 0 })
@@ -164,7 +166,9 @@ func runC17(c *Check) {
 					"the flag is cleared before production in the same iteration: a notification consumed meanwhile would be forgotten", g, path2)
 			}
 			// a set flag leads to production at the block timer: the block-timer case calls produce when the flag is set
-			blockTimerEdges := selectCaseEdges(g, func(t *Term) bool { return t.Op == "field" && t.Name == "C" && strings.Contains(t.Args[0].String(), lazy.Params[2].Name()) })
+			blockTimerEdges := selectCaseEdges(g, func(t *Term) bool {
+				return t.Op == "field" && t.Name == "C" && strings.Contains(t.Args[0].String(), lazy.Params[2].Name())
+			})
 			flagSet := g.Select(EdgeWhere(func(t *Term, pol bool, n *Node) bool {
 				t, pol = normFact(t, pol)
 				return pol && t.Op == "field" && t.Name == "txsAvailable"
